@@ -6,21 +6,22 @@ Import ListNotations.
 Open Scope N_scope.
 
 (* ---- accept_iff_coercible:  accepts go_quirks S reparse vds vars = true <-> coercible_all std S vds vars = true
-        is REFUTED on the faithful model, once per confirmed cause.  [go_quirks] is the code as it is; the
-        witnesses about [old_quirks] are historical: those causes are repaired in /repo (KNOWN_FINDINGS "fixed:"),
-        their flags are off in [go_quirks], and the strengthened _partial theorem below covers their inputs ---- *)
+        is REFUTED on the faithful model, once per confirmed cause.  [go_quirks] is the code as it is (one cause
+        is left in it: the Upload exemption); the witnesses about [old_quirks] are HISTORICAL: those causes are
+        repaired in /repo (KNOWN_FINDINGS "fixed:", the Int / ID ones included), their flags are off in
+        [go_quirks], and the strengthened _partial theorem below covers their inputs ---- *)
 Theorem c06_accept_iff_coercible_refuted_int_accepts_non_int32 :
-  exists S vds vars, accepts go_quirks S no_reparse vds vars = true /\ coercible_all std S vds vars = false.
+  exists S vds vars, accepts old_quirks S no_reparse vds vars = true /\ coercible_all std S vds vars = false.
 Proof. exact refuted_int_proof. Qed.
 Print Assumptions c06_accept_iff_coercible_refuted_int_accepts_non_int32.
 
 Theorem c06_accept_iff_coercible_refuted_int_1e100 :
-  exists S vds vars, accepts go_quirks S no_reparse vds vars = true /\ coercible_all std S vds vars = false.
+  exists S vds vars, accepts old_quirks S no_reparse vds vars = true /\ coercible_all std S vds vars = false.
 Proof. exact refuted_int_1e100_proof. Qed.
 Print Assumptions c06_accept_iff_coercible_refuted_int_1e100.
 
 Theorem c06_accept_iff_coercible_refuted_id_accepts_non_integer_number :
-  exists S vds vars, accepts go_quirks S no_reparse vds vars = true /\ coercible_all std S vds vars = false.
+  exists S vds vars, accepts old_quirks S no_reparse vds vars = true /\ coercible_all std S vds vars = false.
 Proof. exact refuted_id_proof. Qed.
 Print Assumptions c06_accept_iff_coercible_refuted_id_accepts_non_integer_number.
 
@@ -65,19 +66,20 @@ Proof. exact refuted_remap_collision_proof. Qed.
 Print Assumptions c06_accept_iff_coercible_refuted_remap_name_collision_upload.
 
 (* ---- accept_iff_coercible_partial: the engine pipeline of the code as it is, for every schema, operation and
-        variables JSON.  Int / ID are weakened to "JSON number" ([weak]) and the remaining Upload cause is
-        excluded by [no_upload_ref]; everything else is well-formedness (unique names / keys, valid defaults) and
-        the model's own recursion budget.  No condition on the shape of the values is left. ---- *)
+        variables JSON, against the specification itself ([std]; the weakening of Int / ID to "JSON number" is
+        gone with their repair).  The remaining Upload cause is excluded by [no_upload_ref]; everything else is
+        well-formedness (unique names / keys, valid defaults) and the model's own recursion budget.  No
+        condition on the shape of the values is left. ---- *)
 Theorem c06_accept_iff_coercible_partial : forall S reparse vds ms,
     fields_nodup S = true ->
     oneof_no_defaults S = true ->
-    field_defaults_ok weak_strict S = true ->
+    field_defaults_ok std_strict S = true ->
     json_nodup (JObj ms) = true ->
     vars_nodup vds = true ->
     no_upload_ref S vds = true ->
-    forallb (var_default_ok S weak) vds = true ->
+    forallb (var_default_ok S std) vds = true ->
     normalise go_quirks S reparse vds ms <> NFuel ->
-    (accepts go_quirks S reparse vds (JObj ms) = true <-> coercible_all weak S vds (JObj ms) = true).
+    (accepts go_quirks S reparse vds (JObj ms) = true <-> coercible_all std S vds (JObj ms) = true).
 Proof. exact accept_iff_coercible_partial_proof. Qed.
 Print Assumptions c06_accept_iff_coercible_partial.
 
@@ -89,7 +91,7 @@ Theorem c06_default_injection_neutral : forall d S reparse,
 Proof. intros d S reparse. exact (inject_ok d S reparse go_quirks eq_refl eq_refl eq_refl). Qed.
 Print Assumptions c06_default_injection_neutral.
 
-(* ---- the same pipeline with the remaining causes repaired as well: the full specification ---- *)
+(* ---- the same pipeline with the remaining cause (Upload) repaired as well ---- *)
 Theorem c06_accept_iff_coercible_repaired : forall S reparse vds ms,
     fields_nodup S = true ->
     oneof_no_defaults S = true ->
@@ -107,7 +109,7 @@ Print Assumptions c06_accept_iff_coercible_repaired.
 Theorem c06_validator_accept_iff_partial : forall S vds vars,
     fields_nodup S = true -> json_nodup vars = true ->
     no_upload_ref S vds = true ->
-    (validate go_quirks S vds vars = None <-> coercible_all weak_strict S (map strip_default vds) vars = true).
+    (validate go_quirks S vds vars = None <-> coercible_all std_strict S (map strip_default vds) vars = true).
 Proof. exact validator_accept_iff_partial_proof. Qed.
 Print Assumptions c06_validator_accept_iff_partial.
 
@@ -145,7 +147,7 @@ Theorem c06_error_names_first_offender_partial : forall S vd vars e,
     fields_nodup S = true -> json_nodup vars = true ->
     no_upload_ref S [vd] = true ->
     validate go_quirks S [vd] vars = Some e ->
-    e_var e = vd_name vd /\ coercible_var weak_strict S vars (strip_default vd) = false.
+    e_var e = vd_name vd /\ coercible_var std_strict S vars (strip_default vd) = false.
 Proof. exact first_offender_single_variable_proof. Qed.
 Print Assumptions c06_error_names_first_offender_partial.
 
